@@ -103,6 +103,7 @@ func RunHistories(c *Ctx, d *HDriver, maxDepth int, rep *Report) *HStats {
 	pool := c.PoolFor(false)
 	st := &HStats{Outcomes: map[string]int{}}
 	seen := map[string]bool{}
+	nPerClause := map[string]int{}
 	type node struct{ hist []string }
 	var frontier []node
 	// initial states
@@ -182,7 +183,13 @@ func RunHistories(c *Ctx, d *HDriver, maxDepth int, rep *Report) *HStats {
 				}
 				h := append(append([]string{}, meta[i].Hist...), op)
 				for _, v := range s.Violations {
-					rep.Add(d.Name+": "+clause(v), v+"\nhistory: "+strings.Join(h, " ; "), map[string]any{"driver": d.Name, "history": h})
+					// a finding is identified by driver, violated clause and the failing history;
+					// only the first few histories per clause are kept as separate findings
+					ck := d.Name + ": " + clause(v)
+					nPerClause[ck]++
+					if nPerClause[ck] <= 400 {
+						rep.Add(ck+" @ "+CompactHistory(h), v+"\nhistory: "+strings.Join(h, " ; "), map[string]any{"driver": d.Name, "history": h})
+					}
 				}
 				if s.Cut {
 					st.Cut++
@@ -250,4 +257,22 @@ func AddHCoverage(rep *Report, name string, st *HStats, alphabet int) {
 		cov["time_budget_hit"] = true
 		cov["exhaustive"] = false
 	}
+}
+
+// CompactHistory renders a history with run-length encoding of repeated operations.
+func CompactHistory(h []string) string {
+	var parts []string
+	for i := 0; i < len(h); {
+		j := i
+		for j < len(h) && h[j] == h[i] {
+			j++
+		}
+		if j-i > 1 {
+			parts = append(parts, fmt.Sprintf("%s*%d", h[i], j-i))
+		} else {
+			parts = append(parts, h[i])
+		}
+		i = j
+	}
+	return strings.Join(parts, " ; ")
 }
